@@ -166,6 +166,8 @@ def c10(ctx):
     ctx.add(finalise_gates(fx))
     ctx.add(full_permissions(fx))
     ctx.add(ownership_facts(fx))
+    import p_gate
+    ctx.add([o for o in p_gate.helpers_always_apply(fx) if "allocate_file" not in o.key])
     import p_role
     meta_sinks = ("copy_permissions", "copy_timestamps", "copy_owner", "copy_xattr", "set_permissions", "set_times",
                   "fchown", "set_xattr", "list_xattr", "get_xattr", "CopyHandle")
@@ -177,3 +179,5 @@ def c18(ctx):
     ctx.add([o for o in finalise_gates(fx) if "fsync" in o.key])
     ctx.add(sync_last(fx))
     ctx.add(ownership_facts(fx))
+    import p_gate
+    ctx.add([o for o in p_gate.helpers_always_apply(fx) if "::sync|" in o.key])
